@@ -1470,3 +1470,9 @@ func FuncKey(n *Node) string {
 	}
 	return sb.String()
 }
+
+// Lookup reads a variable of this scope (not the enclosing ones).
+func (e *Env) Lookup(name string) (Val, bool) {
+	v, ok := e.vars[name]
+	return v, ok
+}
